@@ -144,7 +144,9 @@ class ArraySlice(_ArrayExpr):
         for idx, axis_size in zip_longest(indices, parent_shape):
             if idx is None:
                 break
-            if isinstance(idx, slice):
+            if isinstance(idx, (slice, sp.Tuple)):
+                # a slice is stored as Tuple(start, stop, step), which is also what this
+                # constructor gets when the instance is rebuilt from its own args
                 new_idx = sp.Tuple(*normalize(idx, axis_size))
             else:
                 new_idx = _sympify(_normalize_index(idx, axis_size))
